@@ -109,9 +109,18 @@ impl Cluster {
     }
 
     pub fn get_bytes(&self, index: BlobIdx) -> Result<ByteRegion> {
+        if index.into_usize() + 1 >= self.blob_offsets.len() {
+            return Err(format_error!(&format!(
+                "Blob index ({index}) is not valid in regard of blob count ({})",
+                self.blob_offsets.len() - 1
+            )));
+        }
         self.build_plain_reader()?;
         let offset = self.blob_offsets[index.into_usize()];
         let end_offset = self.blob_offsets[index.into_usize() + 1];
+        if end_offset < offset {
+            return Err(format_error!("Blob offsets are not increasing"));
+        }
         let size = end_offset - offset;
         if let ClusterReader::Plain(r) = &*self.reader.read().unwrap() {
             Ok(r.get_byte_slice(offset, size).into())
@@ -137,6 +146,11 @@ impl DataBlockParsable for Cluster {
         reader: &Reader,
     ) -> Result<Self::Output> {
         let (cluster_builder, raw_data_size) = intermediate;
+        if raw_data_size.into_u64() > header_offset.into_u64() {
+            return Err(format_error!(
+                "Cluster data is declared bigger than what is before the cluster tail"
+            ));
+        }
         let reader = reader.cut(header_offset - raw_data_size, raw_data_size, false)?;
         let reader = if cluster_builder.compression == CompressionType::None {
             assert_eq!(cluster_builder.data_size, raw_data_size);
@@ -174,7 +188,12 @@ impl Parsable for ClusterBuilder {
             } else {
                 parser.read_usized(header.offset_size)?.into()
             };
-            assert!(value.is_valid(data_size));
+            if !value.is_valid(data_size) {
+                return Err(format_error!(
+                    &format!("Blob offset ({value}) is out of the cluster data ({data_size})"),
+                    parser
+                ));
+            }
             elem.write(value);
         }
         unsafe { blob_offsets.set_len(blob_count) }
